@@ -19,7 +19,7 @@ LEVEL = 'exploration'
 INF = float('inf')
 
 
-def reference(nodes, adj, dur, delays, I0, tmin, tmax):
+def reference(nodes, adj, dur, delays, I0, tmin, tmax, late=False):
     """-> (events [(time, kind, node, source)], coincidence flag).  dur[u][k], delays[(u,v)][k] for the k-th infection of u."""
     status = {u: 'S' for u in nodes}
     count = {u: 0 for u in nodes}
@@ -40,7 +40,7 @@ def reference(nodes, adj, dur, delays, I0, tmin, tmax):
         for v in adj[u]:
             lst = delays[(u, v)][k % len(delays[(u, v)])]
             for x in lst:
-                if x < d:
+                if x < d or late:
                     push(t + x, 'att', u, v)
     for u in I0:
         infect(tmin, u, None)
@@ -71,20 +71,22 @@ def sis_case(draw):
     q = st.integers(1, 159)         # multiples of 1/64 up to 2.5
     dur = [[draw(st.integers(512, 2048)) / 1024.0 for _ in range(draw(st.integers(1, 3)))] for _ in nodes]
     mind = min(min(d) for d in dur)
+    late = draw(st.integers(0, 3)) == 0      # the statement says 'any lists of delays': also attempts after the source's own recovery
     delays = []
     for (u, v) in pairs:
         du = dur[nodes.index(u)]
         lists = []
         for k in range(draw(st.integers(1, 2))):
             m = draw(st.integers(0, 4))
-            xs = sorted(set(draw(st.integers(1, int(min(du) * 1024) - 1)) / 1024.0 for _ in range(m)))
+            hi = int(min(du) * 1024) - 1 if not late else int(max(du) * 1024 * 3)
+            xs = sorted(set(draw(st.integers(1, hi)) / 1024.0 for _ in range(m)))
             lists.append(xs)
         delays.append(lists)
     I0, _ = draw(gen.initial_sets(gc['nodes'], allow_R=False, max_I=2))
     tmin = draw(st.sampled_from([0, 0, -1.5, 2]))
     tmax = tmin + draw(st.sampled_from([2, 3.5, 5, 8, 8]))
-    return {'gc': gc, 'dur': dur, 'delays': delays, 'I0': I0, 'tmin': tmin, 'tmax': tmax,
-            'api': draw(st.sampled_from(['two', 'joint']))}
+    return {'gc': gc, 'dur': dur, 'delays': delays, 'I0': I0, 'tmin': tmin, 'tmax': tmax, 'late': late,
+            'api': draw(st.sampled_from(['two', 'joint'])), 'single': draw(st.booleans())}
 
 
 def prop_ref(case):
@@ -95,7 +97,8 @@ def prop_ref(case):
     delays = dict(zip(pairs, case['delays']))
     I0 = [oracles.tolabel(u) for u in case['I0']]
     tmin, tmax = case['tmin'], case['tmax']
-    events, coincide = reference(nodes, adj, dur, delays, I0, tmin, tmax)
+    late = bool(case.get('late'))
+    events, coincide = reference(nodes, adj, dur, delays, I0, tmin, tmax, late=late)
     if coincide:
         return Result([], nontrivial=False, classes=['discarded-coincidence'])
     N = len(nodes)
@@ -128,7 +131,7 @@ def prop_ref(case):
         def trans(u, v, d):
             budget.tick()
             k = count[u] - 1
-            return [x for x in delays[(u, v)][k % len(delays[(u, v)])] if x < d]
+            return [x for x in delays[(u, v)][k % len(delays[(u, v)])] if x < d or late]
 
         def joint(u, nbrs):
             d = rec(u)
@@ -139,7 +142,7 @@ def prop_ref(case):
         mode = 'full' if full else 'arrays'
         rec, trans, joint = make()
         G = oracles.build_graph(case['gc'])
-        kw = dict(initial_infecteds=list(I0), tmin=tmin, tmax=tmax, return_full_data=full)
+        kw = dict(initial_infecteds=(I0[0] if case.get('single') and len(I0) == 1 else list(I0)), tmin=tmin, tmax=tmax, return_full_data=full)
         try:
             if case['api'] == 'two':
                 out = EoN.fast_nonMarkov_SIS(G, trans_time_fxn=trans, rec_time_fxn=rec, **kw)
@@ -171,7 +174,7 @@ def prop_ref(case):
     # non-trivial: an attempt falls inside the target's infectious period and a node is infected >= 2 times
     twice = any(hist_w[u][1].count('I') >= 2 for u in nodes)
     n_att = 0
-    classes = ['api=' + case['api']] + (['reinfection'] if twice else [])
+    classes = ['api=' + case['api']] + (['reinfection'] if twice else []) + (['delays-after-recovery'] if late else []) + (['single-node-form'] if case.get('single') and len(I0) == 1 else [])
     succ = sum(1 for e in events if e[1] == 'I' and e[3] is not None)
     return Result(fails, nontrivial=twice and succ >= 2, classes=classes)
 
